@@ -4,17 +4,33 @@
 // generator; comment-only, adds no code).
 package timesafeguard
 
+// flag.Bool never returns nil; the variable is assigned once, by the package
+// initialiser (checked: post of init, and no other store exists).
+//@ globalinv flagset: DisableTimesafeguard != nil
+
 //@ func timeResult.worstCaseDrift
 //@   arith exact
 //@   pure
-//@   requires t.Start <= t.End
 //@   ensures sound: forall theta int, u0 int :: t.Start <= u0 && u0 <= t.End && t.Result == u0 + theta && result < ElectionTimeout ==> abs(theta) < ElectionTimeout
 //@   ensures nonneg: result >= 0
 
 //@ func timeInSync
-//@   requires forall k int :: 0 <= k && k < len(results) ==> results[k].Start <= results[k].End
 //@   ensures iff: result <==> (forall k int :: 0 <= k && k < len(results) ==> results[k].worstCaseDrift() < ElectionTimeout)
 //@   modifies
 //@   loop range results
 //@     invariant forall k int :: 0 <= k && k <= rangeindex ==> results[k].worstCaseDrift() < ElectionTimeout
+//@     invariant 0 - 1 <= rangeindex
+
+// A result whose Result is the zero time belongs to a peer that did not
+// answer; it is skipped, never trusted. Everything else must be provably in
+// sync (worstCaseDrift < ElectionTimeout) or the call refuses, unless the
+// safeguard is disabled.
+//@ func synchronizedWithNetwork
+//@   ensures joins-only-if-safe: result == nil ==> *DisableTimesafeguard || (forall k int :: 0 <= k && k < len(results) && !results[k].Result.IsZero() ==> results[k].worstCaseDrift() < ElectionTimeout)
+//@   ensures refuses-only-offenders: result != nil ==> !*DisableTimesafeguard && (exists k int :: 0 <= k && k < len(results) && !results[k].Result.IsZero() && results[k].worstCaseDrift() >= ElectionTimeout)
+//@   loop range results
+//@     invariant 0 - 1 <= rangeindex && rangeindex < len(results)
+//@     invariant sub: forall m int :: 0 <= m && m < len(nonZeroResults) ==> (exists j int :: 0 <= j && j <= rangeindex && !results[j].Result.IsZero() && nonZeroResults[m] == results[j])
+//@     invariant sup: forall j int :: 0 <= j && j <= rangeindex && !results[j].Result.IsZero() ==> (exists m int :: 0 <= m && m < len(nonZeroResults) && nonZeroResults[m] == results[j])
+//@   loop range nonZeroResults
 //@     invariant 0 - 1 <= rangeindex
